@@ -276,6 +276,9 @@ class ManifestContext:
                         # a file of another content type that has the same track ID
                         continue
                     adp_set.representations.append(mf.representation)
+                if not adp_set.representations:
+                    # none of its media files is left (or playable)
+                    continue
                 adp_set.compute_av_values()
                 period.adaptationSets.append(adp_set)
                 if adp_set.content_type == 'video':
@@ -290,7 +293,8 @@ class ManifestContext:
             audio_adps = self.calculate_audio_adaptation_sets(stream)
             text_adps = self.calculate_text_adaptation_sets(
                 stream, video.lang)
-        assert video is not None
+        if video is None:
+            raise ValueError(f'Period {period.id} does not have any video')
         # (the option is removed from non-live requests)
         requested_depth = getattr(opts, 'timeShiftBufferDepth', None)
         if timing:
@@ -352,6 +356,9 @@ class ManifestContext:
                 continue
             kids: Set[KeyMaterial] = adp.key_ids()
             keys = models.Key.get_kids(kids)
+            if not keys:
+                raise ValueError(
+                    f'Keys of {adp.content_type} AdaptationSet {adp.id} not found')
             dc = DrmContext(stream, keys, self.options)
             adp.drm = dc.manifest_context
             adp.default_kid = list(keys.keys())[0]
